@@ -91,9 +91,20 @@ CHECKS = {
             "Trusts CPython json/tomllib, PyYAML's scanner/parser and the 40-line core-schema resolver in vf/decoders.py. TOML lists the "
             "serializer has no form for may be refused or written correctly, not written wrongly. Strings outside the pools are not covered.",
             "DESIGN.md section 4 C03"),
+    "C12": ("exploration",
+            "bounded-exhaustive enumeration of document tuples through the real xml converter against expat and a tree computed from the DSL",
+            "Every node-shape tree to depth 2 (thorough 3) as root, under a root and between siblings; 32 XML-significant strings as text in 6 "
+            "positions x 2 text forms and as attribute values in 3 positions; attribute sets x children forms; name forms; 7 x 7 namespace "
+            "forms on parent and child; 84 declaration option combinations; 16 malformed node kinds at 3 depths and 6 malformed documents. "
+            "The output must be well-formed for expat and its tree (names, nesting, attributes, namespace bindings in scope, text per gap "
+            "between elements) must equal the described one; malformed descriptions must be errors.",
+            "Trusts expat and the 60-line mapping from the DSL to a tree (written from converters.md). Where the description has no text "
+            "between two elements, whitespace-only indentation is accepted (the converter pretty-prints by design). Namespace declarations "
+            "are compared as bindings in scope.",
+            "DESIGN.md section 4 C12"),
 }
 
-CLAIMED = ["C01", "C02", "C03", "C04", "C05", "C07", "C10", "C11"]
+CLAIMED = ["C01", "C02", "C03", "C04", "C05", "C07", "C10", "C11", "C12"]
 
 NOT_YET = "check not built yet in this round; design in DESIGN.md section 4 (bounded-exhaustive enumeration applies)"
 
